@@ -218,3 +218,39 @@ def filtering_constructs(fn: ast.AST) -> list[ast.AST]:
         elif isinstance(n, ast.Subscript) and isinstance(n.slice, ast.Slice) and isinstance(n.ctx, ast.Load):
             out.append(n)
     return out
+
+
+def regex_tests(fi) -> list:
+    """Regex tests in a function: [(call node, pattern text, method)] for `re.match(p, v)` and `COMPILED.match(v)` where
+    COMPILED is a module-level (or local) `re.compile(<constant>)`."""
+    out = []
+    mod = fi.module
+    local = {}
+    for n in ast.walk(fi.node):
+        if isinstance(n, ast.Assign) and len(n.targets) == 1 and isinstance(n.targets[0], ast.Name):
+            local[n.targets[0].id] = n.value
+
+    def const_of(e):
+        if isinstance(e, ast.Constant) and isinstance(e.value, str):
+            return e.value
+        if isinstance(e, ast.Name):
+            v = local.get(e.id) or mod.assigns.get(e.id)
+            if v is not None and v is not e:
+                return const_of(v)
+        return None
+
+    for n in ast.walk(fi.node):
+        if not (isinstance(n, ast.Call) and isinstance(n.func, ast.Attribute) and n.func.attr in ("match", "fullmatch", "search")):
+            continue
+        base = n.func.value
+        if ast.unparse(base) == "re" and n.args:
+            p = const_of(n.args[0])
+            if p is not None:
+                out.append((n, p, n.func.attr))
+        elif isinstance(base, ast.Name):
+            v = local.get(base.id) or mod.assigns.get(base.id)
+            if isinstance(v, ast.Call) and ast.unparse(v.func) in ("re.compile", "compile") and v.args:
+                p = const_of(v.args[0])
+                if p is not None:
+                    out.append((n, p, n.func.attr))
+    return out
